@@ -34,6 +34,15 @@ def main():
             if not args or m["id"] in args or m["property"] in args:
                 muts.append(m)
     results = []
+    # the evidence files must describe the UNCHANGED tree: keep them aside while edited trees are checked
+    import shutil, tempfile, atexit
+    evbak = tempfile.mkdtemp(prefix="evbak")
+    shutil.copytree(ROOT + "/evidence", evbak + "/evidence")
+    def restore():
+        shutil.rmtree(ROOT + "/evidence", ignore_errors=True)
+        shutil.copytree(evbak + "/evidence", ROOT + "/evidence")
+        shutil.rmtree(evbak, ignore_errors=True)
+    atexit.register(restore)
     for m in muts:
         t0 = time.time()
         try:
